@@ -825,8 +825,8 @@ package go9p
 //@   property C07 C06 C19
 //@   requires srv != nil && reqwf(req) && req.Conn.Srv == srv && nolocks()
 //@   at unlock(conn.Unlock) assume r != nil ==> reqwf(r)
-//@   at unlock(conn.Unlock) requires [C07 chained] inmap(conn.reqs, tag) && conn.reqs[tag] != nil && conn.reqs[tag] != req ==> r == conn.reqs[tag] && r.flushreq == req && req.flushreq == old(req.Conn.reqs[req.Tc.Oldtag].flushreq)
-//@   at unlock(conn.Unlock) requires [C07 unchained] !(inmap(conn.reqs, tag) && conn.reqs[tag] != nil && conn.reqs[tag] != req) ==> r == nil && req.flushreq == old(req.flushreq)
+//@   at unlock(conn.Unlock) requires [C07 C03 chained] inmap(conn.reqs, tag) && conn.reqs[tag] != nil && conn.reqs[tag] != req ==> r == conn.reqs[tag] && r.flushreq == req && req.flushreq == old(req.Conn.reqs[req.Tc.Oldtag].flushreq)
+//@   at unlock(conn.Unlock) requires [C07 C03 unchained] !(inmap(conn.reqs, tag) && conn.reqs[tag] != nil && conn.reqs[tag] != req) ==> r == nil && req.flushreq == old(req.flushreq)
 //@   at call((*SrvReq).Respond)#1 requires [C07 immediate] arg0 == req && r == nil
 // a Tflush that waits on its target is answered later by the target's Respond, which sends req.Rc as it is
 //@   at unlock(conn.Unlock) requires [C07 C03 prepacked] len(req.Rc.Buf) >= 7 ==> req.Rc.Type == 109 && len(req.Rc.Pkt) == 7 && u8(req.Rc.Pkt, 4) == 109
@@ -1027,6 +1027,9 @@ package go9p
 //@   at call((*SrvReq).PostProcess) after pp := true
 //@   at call(SrvReqProcessOps.SrvReqRespond) after pp := true
 //@   at send(conn.reqout) requires [once] status & 4 == 0
+// the "already answered" test and the mark are one critical section: the request's lock is never released in Respond
+// with the responded bit clear
+//@   at unlock(req.Unlock) requires [C03 atomic] req.status & 4 != 0
 //@   at send(conn.reqout) requires [notflushed] status & 1 == 0
 //@   at send(conn.reqout) requires [bookkeeping-first] pp
 //@   at send(conn.reqout) requires [own] req.Conn == conn
@@ -1038,7 +1041,7 @@ package go9p
 // (from the property: requests sharing a tag run one at a time in arrival order) a request answered while newer ones
 // share its tag leaves the table entry (the newest of the group) alone; the newest one, cancelled while older ones are
 // still outstanding, hands the entry to the next older one; only the last one of its tag removes the entry
-//@   at unlock(conn.Unlock) requires [C08 C03 table] (old(req.prev) != nil ==> inmap(conn.reqs, req.Tc.Tag) == old(inmap(req.Conn.reqs, req.Tc.Tag)) && conn.reqs[req.Tc.Tag] == old(req.Conn.reqs[req.Tc.Tag])) && (old(req.prev) == nil && old(req.next) != nil ==> inmap(conn.reqs, req.Tc.Tag) && conn.reqs[req.Tc.Tag] == old(req.next) && old(req.next).prev == nil) && (old(req.prev) == nil && old(req.next) == nil ==> !inmap(conn.reqs, req.Tc.Tag))
+//@   at unlock(conn.Unlock) requires [C08 C03 C07 table] (old(req.prev) != nil ==> inmap(conn.reqs, req.Tc.Tag) == old(inmap(req.Conn.reqs, req.Tc.Tag)) && conn.reqs[req.Tc.Tag] == old(req.Conn.reqs[req.Tc.Tag])) && (old(req.prev) == nil && old(req.next) != nil ==> inmap(conn.reqs, req.Tc.Tag) && conn.reqs[req.Tc.Tag] == old(req.next) && old(req.next).prev == nil) && (old(req.prev) == nil && old(req.next) == nil ==> !inmap(conn.reqs, req.Tc.Tag))
 // the reply of a flushed request goes out before the Rflush of the flushes waiting on it
 //@   ghost queued bool = false
 //@   at send(conn.reqout) ghost queued := true
@@ -1238,7 +1241,18 @@ package go9p
 
 //@ func (*Clnt).Rpc(clnt, tc) (rc, err)
 //@   property C09 C14
-//@   nobody
+//@   ghost waited bool = false
+//@   ghost nfree int = 0
+// assumed, not proved here: the client is initialised, the caller packed tc and holds no lock, and requests on the free
+// list carry a tag of the pool's range
+//@   at call((*Clnt).ReqAlloc) assume clnt.tagpool != nil
+//@   at call((*Clnt).Rpcnb) assume len(tc.Pkt) >= 7 && nolocks()
+//@   at call((*Clnt).ReqFree) assume clnt.tagpool != nil && clnt.tagpool.low <= r.tag && r.tag <= clnt.tagpool.high
+//@   at recv(r.Done) ghost waited := true
+//@   at call((*Clnt).ReqFree) ghost nfree := nfree + 1
+//@   at call((*Clnt).ReqFree) requires [C09 ownreq] arg0 == clnt && arg1 == r && waited
+//@   at call((*Clnt).Rpcnb) requires [C09 fresh] arg1 == r && r.Tc == tc && r.Done != nil
+//@   ensures  [C09 recycled] waited ==> nfree == 1
 //@   trusted the reply delivered to a call is a decoded Fcall (proved separately for recv: C09); request/reply matching is not re-proved here; existing string slices (walk names) are only read
 //@   opt preserve E.string
 //@   requires clnt != nil && tc != nil
